@@ -141,11 +141,8 @@ class C11(Check):
                 z.close()
                 if napp:
                     bio.seek(0)
-                    z = py7zr.SevenZipFile(bio, "a", filters=case.get("filters2") if case.get("filters2") is not None else filters, password=pw)
-                    if case["header"].startswith("encrypted"):
-                        z.set_encrypted_header(True)
-                    elif case["header"] == "raw":
-                        z.set_encoded_header_mode(False)
+                    # the append session asks for header encryption the same way the first one did (constructor flag or setter)
+                    z = arch.open_write(bio, case.get("filters2") if case.get("filters2") is not None else filters, pw, case["header"], mode="a")
                     for n, d in model[nfirst:]:
                         z.writestr(d, n)
                     z.close()
